@@ -215,7 +215,10 @@ pub fn cause_class(e: &Error) -> String {
 		Error::Transport(t) => t.to_string(),
 		Error::InvalidRequestId(jsonrpsee_types::InvalidRequestId::NotPendingRequest(_)) => "notPending".into(),
 		Error::InvalidRequestId(jsonrpsee_types::InvalidRequestId::Invalid(_)) => "invalidId".into(),
-		Error::Custom(s) if s.starts_with("Unparseable message") => "unparseable".into(),
+		Error::Custom(s) if s.contains("Error reason could not be found") => "placeholder".into(),
+		// the only free-text cause the client produces: the server sent something that is not a JSON-RPC message
+		// (the wording is not part of the property)
+		Error::Custom(_) => "unparseable".into(),
 		Error::EmptyBatchRequest(_) => "emptyBatch".into(),
 		o => format!("other:{o}"),
 	}
